@@ -384,6 +384,44 @@ def check_class(run, repo, eff, fr, ci, fams, encs):
                 bad('C02-T', 'destination [%s]' % tag, 'the loaded value is never written to R[t]')
             if fam.size == 8 and not any(e.kind == 'RegWrite' and e.d['idx'] == ('field', 't2') for e in evs):
                 bad('C02-T', 'destination t2 [%s]' % tag, 'the second word is never written to R[t2]')
+            # on EVERY path on which memory is read the destination(s) are written (or the PC is loaded): the guards of the
+            # reads and of the destination writes are enumerated as opaque atoms (LPAE single access, endianness, ...)
+            def peel(t, pol):
+                while t[0] == 'not':
+                    t, pol = t[1], not pol
+                return repr(N(t, asg)), pol
+            dest = [e for e in evs if (e.kind == 'RegWrite' and e.d['idx'] in (('field', 't'), ('field', 't2'))) or e.kind == 'Branch']
+            rds = [e for e in mems if e.kind == 'MemRead']
+            atoms = []
+            for e in rds:
+                for t, pol, _ in e.guards:
+                    k = peel(t, pol)[0]
+                    if k not in atoms:
+                        atoms.append(k)
+            for e in dest:
+                # the endianness split of a doubleword is made after the read: both sides must write both registers
+                for t, pol, _ in e.guards:
+                    k = peel(t, pol)[0]
+                    if 'big_endian' in k and k not in atoms:
+                        atoms.append(k)
+            if rds and len(atoms) <= 8:
+                def live_under(e, val):
+                    for t, pol, _ in e.guards:
+                        k, p = peel(t, pol)
+                        if k in val and val[k] != p:
+                            return False
+                    return True
+                for vals in itertools.product((True, False), repeat=len(atoms)):
+                    val = dict(zip(atoms, vals))
+                    if not any(live_under(e, val) for e in rds):
+                        continue
+                    need = [('field', 't')] + ([('field', 't2')] if fam.size == 8 else [])
+                    for r in need:
+                        if not any(live_under(e, val) and (e.kind == 'Branch' or e.d['idx'] == r) for e in dest):
+                            bad('C02-T', 'destination R[%s] not written on a path [%s]' % (fmt(r), tag),
+                                'memory is read but R[%s] is not written on the path where %s' % (
+                                    fmt(r), ', '.join('%s is %s' % (a[:50], v) for a, v in val.items() if not a.startswith("('pcall', 'condition_passed'"))[:300]))
+                            break
         else:
             for e in mems:
                 if e.kind != 'MemWrite':
